@@ -26,7 +26,7 @@ def configs(tier, seed):
   i = 0
   for mx in (1, 2, 3, 4, 5, 6):
     for st in (sts if tier == 'thorough' else [sts[i % 6]]):
-      for w in range(2 if tier == 'quick' else 4):
+      for w in range(2 if tier == 'quick' else 2):
         cfgs.append(dict(name='cache/max%d/%s/w%d' % (mx, st, w), mode='cache', max=mx, strategy=st))
     # a cache daemon that relays its own metrics (RELAY_CACHE_METRICS) through a dynamic router with no destination up:
     # the resume event re-injects the relay buffer into the cache from inside the event dispatch
@@ -187,7 +187,8 @@ def run_cache(cfg, res):
                      'metricReceiversPaused=%s cacheTooFull=%s transports=%r' % (h.final_size, low, world.state.metricReceiversPaused,
                                                                                  world.state.cacheTooFull, states)))
       for p in h.protos:
-        if getattr(p, 'verif_connected_while_paused', False) and p.verif_state_after_connect != 'paused':
+        if (getattr(p, 'verif_connected_while_paused', False) and p.verif_state_after_connect != 'paused'
+            and not getattr(p, 'verif_writer_mid_dispatch', False)):
           viol.append(('late-receiver-not-paused', 'a receiver connected while receivers were paused was not paused'))
       for name, e in h.thread_exc:
         viol.append(('thread-died/%s' % type(e).__name__, 'thread %s died with %r' % (name, e)))
@@ -199,7 +200,7 @@ def run_cache(cfg, res):
     h0 = one(S.DeviationPolicy({}), 'baseline')
     one(S.DeviationPolicy({0: 1}), 'mirror')
     n0 = h0.decisions
-    budget2 = 300 if cfg['tier'] == 'quick' else 5000
+    budget2 = 300 if cfg['tier'] == 'quick' else 1500
     for d in range(0, n0 + 3):
       hi = one(S.DeviationPolicy({d: 1}), 'preempt@%d' % d)
       m = hi.decisions + 2 - (d + 1)
@@ -208,7 +209,7 @@ def run_cache(cfg, res):
         for j in sorted(set(r.randrange(d + 1, hi.decisions + 2) for _ in range(min(take, m)))):
           one(S.DeviationPolicy({d: 1, j: 1}), 'preempt@%d,%d' % (d, j))
     # small caches cross the high watermark on almost every store: that is where the two handler chains can meet
-    nrand = (100 if cfg['max'] > 2 else 400) if cfg['tier'] == 'quick' else 1500
+    nrand = (100 if cfg['max'] > 2 else 400) if cfg['tier'] == 'quick' else (500 if cfg['max'] > 2 else 1200)
     for _ in range(nrand):
       c = r.random()
       if c < 0.75:
